@@ -2,8 +2,12 @@
 
 Part (i): the two REAL discrete optimisers (`optimize_acqf_discrete`,
 `optimize_decoupled_acqf_discrete`) on arbitrary value tables (ties, duplicate rows, 1–4 objectives,
-costs, every batch size 1 … n and n+1 …) against the Lean model `Acq.optimizeDiscrete` /
-`Acq.optimizeDecoupled` and the decidable relations `Acq.discSpecOk` / `Acq.decSpecOk`.
+costs, every batch size 1 … n and n+1, n+2) against the Lean model `Acq.optimizeDiscrete` /
+`Acq.optimizeDecoupled` and the decidable relations `Acq.discSpecOk` / `Acq.decSpecOk`
+(proved sound in `Props/C07.lean`: an accepted batch carries the top-q values).  A batch size larger
+than the number of choices must return ALL choices (distinct, non-increasing); the crash the code
+had there (defect D7, fixed in /repo by commit 00d0f01) is kept as the regression key
+`crash:optimize_acqf_discrete-q-exceeds-choices`.
 
 Part (ii): whole runs of the real algorithms (see `run_alg`): the acquisition's `forward` is wrapped
 to record what the optimiser saw, the problem is wrapped to record what was evaluated, and the
@@ -1070,13 +1074,13 @@ def _check_decoupled_tail(ctx, case, name, alg, rec, fcalls, pcalls, adds, rows,
     if nt is None:
         return False
     if kind != "thompson":
-        nt = _table_batch(ctx, case, name, alg, rec, rows, table, queried, objs)
+        nt = _table_batch(ctx, case, name, alg, rec, rows, table, queried, objs, fcalls, Xq, Yq)
         if nt is None:
             return False
     return _decoupled_data(ctx, case, name, alg, rec, pcalls, adds, queried, objs, Xq, Yq, costs) and nt
 
 
-def _table_batch(ctx, case, name, alg, rec, rows, table, queried, objs):
+def _table_batch(ctx, case, name, alg, rec, rows, table, queried, objs, fcalls, Xq, Yq):
     kind = DECOUPLED[name]
     snap = rec["snap"]
     act = snap["active"]
@@ -1107,6 +1111,21 @@ def _table_batch(ctx, case, name, alg, rec, rows, table, queried, objs):
         model = ctx.ask("optdec", core.qmat(table), str(q))
         if model not in ("err", "bad-op", "empty"):
             mp, mo, _ = model.split(" ")
+            if (core.parse_nats(mp), core.parse_nats(mo)) == (pos, objs):
+                # whole step through the Lean model `Acq.evaluatingStepDecoupled`
+                x0 = next(c["x"] for c in fcalls if c["j"] is not None)
+                obs = [[0.0] * len(rows) for _ in range(m)]
+                for p_, o_, y_ in zip(pos, objs, Yq):
+                    obs[o_][p_] = float(y_)
+                old, new = snap["data"], rec["after"]
+                ans = ctx.ask("decstep", str(alg.model.input_dim), str(m), core.qmat(x0), core.qmat(table), str(q),
+                              core.qmat(obs), core.qmats(old["X"]), core.qmat(old["Y"]))
+                exp = " ".join([core.qmat(Xq), core.nats(objs), core.qmats(new["X"]), core.qmat(new["Y"])])
+                if ans != exp:
+                    _viol(ctx, "step-model", f"{name}: candidates / per-objective training data after the step differ "
+                          "from the Lean model of one decoupled evaluating() step", case, kind="F",
+                          detail={"lean": ans[:300]})
+                ctx.count("run_step_model_checked")
             if (core.parse_nats(mp), core.parse_nats(mo)) != (pos, objs):
                 if len(set(flat)) == len(flat):
                     _viol(ctx, "batch-positions", f"{name}: tie-free table but the batch differs from the model's",
@@ -1198,6 +1217,15 @@ def _check_evalall(ctx, case, name, alg, rec, pcalls, adds):
         _viol(ctx, "data-emp", f"{name}: design_samples after the step are not the old samples followed by exactly "
               "the returned observations of each design", case,
               detail={"stored_under": idx, "old_sizes": [len(s) for s in old], "new_sizes": [len(s) for s in new]})
+    obs = [[] for _ in old]
+    for k, i in enumerate(queried):
+        obs[i] = [float(v) for v in Yq[k]]
+    ans = ctx.ask("evalallstep", str(len(old)), core.nats(S), core.nats(U), core.qmat(obs), core.qmats(old))
+    if ans != core.qmats(new):
+        _viol(ctx, "step-model", f"{name}: design_samples after the round differ from the Lean model of one "
+              "evaluate-everything step (each active design gets exactly its own new observation)", case, kind="F",
+              detail={"lean": ans[:300]})
+    ctx.count("run_step_model_checked")
     if rec["sample_count"] - snap["sample_count"] != len(queried):
         _viol(ctx, "sample-count", f"{name}: sample_count advanced by {rec['sample_count'] - snap['sample_count']} "
               f"for {len(queried)} evaluations", case, kind="F")
